@@ -127,18 +127,21 @@ def build_tasks(ctx):
     # --- zero aberration ---------------------------------------------------
     # psf: (N, G, full, npix);  mtf: (N, G, pupil shipped, axis read from view())
     if quick:
-        plan = {"paraboloid": ([(16, 64, True, 2), (32, 64, True, 1), (32, 128, False, 0), (64, 256, False, -1)],
-                               [(16, 64, True, True), (64, 256, False, False)]),
+        # (odd grid sizes too: fftshift and ifftshift differ there, and the centre is pixel G // 2)
+        plan = {"paraboloid": ([(16, 64, True, 2), (32, 64, True, 1), (32, 128, False, 0), (64, 256, False, -1),
+                                (16, 63, True, 2), (32, 129, False, 1)],
+                               [(16, 64, True, True), (64, 256, False, False), (16, 63, True, True)]),
                 "plano_hyperbolic": ([(24, 64, True, 2), (16, 128, False, 1)],
                                      [(24, 64, True, True), (32, 128, False, False)]),
                 "ellipsoid": ([(32, 64, True, 1), (16, 64, True, 2)], [(32, 64, True, True)])}
     else:
         plan = {"paraboloid": ([(16, 64, True, 4), (32, 64, True, 4), (24, 64, True, 3), (32, 128, True, 2),
                                 (64, 128, True, 1), (64, 256, True, 0), (128, 256, False, -1), (128, 1024, False, -1),
-                                (256, 512, False, -1), (256, 2048, False, -1)],
+                                (256, 512, False, -1), (256, 2048, False, -1), (16, 63, True, 4), (31, 65, True, 2),
+                                (64, 255, False, 1), (128, 1023, False, -1)],
                                [(16, 64, True, True), (32, 64, True, True), (32, 128, True, True), (64, 128, True, True),
                                 (64, 256, False, True), (128, 256, False, True), (128, 512, False, False),
-                                (256, 512, False, False)]),
+                                (256, 512, False, False), (16, 63, True, True), (31, 65, True, True)]),
                 "plano_hyperbolic": ([(16, 64, True, 4), (32, 64, True, 4), (48, 128, True, 1), (64, 128, False, 1),
                                       (128, 512, False, -1)],
                                      [(16, 64, True, True), (32, 64, True, True), (48, 128, True, True),
@@ -157,10 +160,11 @@ def build_tasks(ctx):
         tasks.append(dict(family="stigmatic", name=name, wls=W, seed=ctx.seed, jobs=jobs))
     # --- aberrated random lenses --------------------------------------------
     nl = 9 if quick else 40
-    sizes_q = [(16, 64, True, 2), (32, 64, True, 1), (24, 64, True, 2), (16, 128, False, 2), (32, 128, False, 1),
+    sizes_q = [(16, 64, True, 2), (32, 64, True, 1), (24, 63, True, 2), (16, 128, False, 2), (32, 129, False, 1),
                (16, 64, True, 2), (24, 64, True, 1), (32, 64, False, 2)]
     sizes_t = [(16, 64, True, 3), (32, 64, True, 3), (24, 64, True, 3), (32, 128, True, 2), (48, 128, True, 1),
-               (64, 128, True, 1), (32, 256, True, 1), (64, 256, False, 0), (128, 256, False, -1), (64, 1024, False, -1)]
+               (64, 128, True, 1), (32, 256, True, 1), (64, 256, False, 0), (128, 256, False, -1), (64, 1024, False, -1),
+               (24, 63, True, 2), (33, 129, True, 1), (64, 255, False, 1)]
     for i in range(nl):
         seed = ctx.seed * 7919 + 100 + i
         # aberration targets from a few hundredths of a wave to tens of waves
